@@ -13,7 +13,8 @@ def c10_worker(kp, job):
     seed, idx = job
     rng = random.Random(seed * 275604541 + idx)
     plain = idx % 4 != 3
-    g = docs.gen_doc(rng, force_clef=True, plain_acc=plain, mid_signatures=True, max_spines=3, clef_in_split=0.5 if idx % 2 == 0 else 0.0)
+    g = docs.gen_doc(rng, force_clef=True, plain_acc=plain, mid_signatures=True, max_spines=3, clef_in_split=0.5 if idx % 2 == 0 else 0.0,
+                     second_clef_row=0.5 if idx % 3 == 1 else 0.0)
     text = g.text
     bad = docs.bad_cells(kp, text)
     try:
@@ -56,7 +57,7 @@ def c10_worker(kp, job):
 
 def c10_document_level(chk, b):
     model = core.Model() if b.modelrun_ok else None
-    full = chk.tier == 'thorough' or bool(b.drift) or not b.proof_ok
+    full = chk.tier == 'thorough' or bool(b.drift) or not b.proof_ok or not b.modelrun_ok
     n = core.budget(chk, full, 50, 300)
     results = engine.pmap(c10_worker, [(chk.seed, i) for i in range(n)])
     engine.settle(chk, results, model)
@@ -169,7 +170,7 @@ def c18_mixed_worker(kp, job):
 
 def c18_document_level(chk, b):
     model = core.Model() if b.modelrun_ok else None
-    full = chk.tier == 'thorough' or bool(b.drift) or not b.proof_ok
+    full = chk.tier == 'thorough' or bool(b.drift) or not b.proof_ok or not b.modelrun_ok
     n = core.budget(chk, full, 14, 120)
     results = engine.pmap(c18_worker, [(chk.seed, i) for i in range(n)])
     results += engine.pmap(c18_mixed_worker, [(chk.seed, i) for i in range(core.budget(chk, full, 60, 400))])
